@@ -46,22 +46,24 @@ def _isinst17(ctx):
     return isinst
 
 
+class _Out:
+    def __init__(self, end, value):
+        self.end, self.value = end, value
+
+
 def _call_text(ctx, name, *args):
+    """The text function as the evaluator calls it (registered wrapper and casts as written); the result reduced to its payload."""
+    from . import values as V
     f = _reg(ctx, name)
-    p = func_params(f.node)
-    env = {}
-    vp = next((x for x in f.params if x.kind == 'varpos'), None)
-    if vp is not None:
-        env[vp.name] = tuple(args)
-    else:
-        for k, v in zip(p, args):
-            env[k] = v
-        for prm in f.params[len(args):]:
-            if prm.default is not None:
-                env[prm.name] = ctx.fold(prm.default, f.module)
-    it = Interp(ctx.a, f.module, env, isinstance_fn=_isinst17(ctx), call_models=_text_models(), inline_pkg=True, scope_fn=f.node)
-    out = it.run(f.node.body)
-    return f, out
+    out = V.call(ctx, name, list(args))
+    val = out.value
+    if out.end == 'return' and isinstance(val, Rec) and 'value' in val.f and str(val.f.get('cls', '')).startswith(XLT):
+        val = val.f['value']
+    elif out.end == 'return' and isinstance(val, Rec) and str(val.f.get('cls', '')).startswith(XLERR):
+        return f, _Out('raise', Ref(val.f['cls']))
+    elif out.end == 'return' and isinstance(val, Ref) and val.ref.startswith(XLERR):
+        return f, _Out('raise', val)
+    return f, _Out(out.end, val)
 
 
 def _table(ctx, name, construct, cases, why):
